@@ -13,8 +13,10 @@ CONSTANTS
   MaxN = %d
   MaxPath = %d
   EMIT = TRUE
-  RICH = %s
+  RICH = %d
   UNIFORM = %s
+  NARROW = %d
+  INLINE = %s
 INVARIANT WellFormed
 INVARIANT GenLexAgree
 INVARIANT Emit
@@ -39,10 +41,10 @@ def label_selfcheck(ctx, corpus_path):
     os.remove(p)
 
 
-def gen_doc_cases(ctx, maxn, maxpath, rich, tag, uniform=False):
+def gen_doc_cases(ctx, maxn, maxpath, rich, tag, uniform=False, narrow=0, inline=False):
     """MCTomlDoc: model-check the definition machine and emit one text per behaviour."""
     texts = []
-    r = ctx.tlc("MCTomlDoc", DOC_CFG % (maxn, maxpath, "TRUE" if rich else "FALSE", "TRUE" if uniform else "FALSE"), tag=tag, workers=8,
+    r = ctx.tlc("MCTomlDoc", DOC_CFG % (maxn, maxpath, int(rich), "TRUE" if uniform else "FALSE", int(narrow), "TRUE" if inline else "FALSE"), tag=tag, workers=8,
                 timeout=7200, on_json=lambda o: texts.append(o))
     log("MCTomlDoc %s: %d distinct states, %d texts, %.1fs" % (tag, r.distinct, len(texts), r.wall))
     if len(texts) != r.distinct:
@@ -100,13 +102,21 @@ def inputs(ctx, h, which):
         p = ctx.path(tag + ".ndjson")
         core.write_ndjson(p, recs)
         out.append((tag, p))
+    if "dates" in which:
+        # the date-time edge family of MCDateGen as document values (every month x day edge, field edges)
+        from . import apicheck, c12
+        recs = apicheck.tlc_texts(ctx, "MCDateGen", c12.CFG % 0, "dategen")
+        recs = [{"id": r["id"], "text": [107, 32, 61, 32] + r["text"] + [10]} for r in recs]
+        p = ctx.path("dates.ndjson")
+        core.write_ndjson(p, recs)
+        out.append(("dates", p))
     if "doc" in which:
         if ctx.prop == "C09":
-            models = [(3, 3, False, "doc-n3p3"), (2, 3, True, "doc-n2p3r")] if ctx.quick else \
-                     [(4, 2, False, "doc-n4p2"), (3, 3, True, "doc-n3p3r")]
+            models = [(3, 3, 0, "doc-n3p3v0"), (2, 3, 2, "doc-n2p3r")] if ctx.quick else \
+                     [(4, 2, 1, "doc-n4p2"), (3, 3, 2, "doc-n3p3r")]
         else:
-            models = [(3, 2, False, "doc-n3p2"), (2, 3, True, "doc-n2p3r")] if ctx.quick else \
-                     [(3, 3, True, "doc-n3p3r")]
+            models = [(3, 2, 1, "doc-n3p2"), (2, 3, 2, "doc-n2p3r")] if ctx.quick else \
+                     [(3, 3, 2, "doc-n3p3r")]
         if ctx.prop == "C03":   # repeated key segments spelled identically: exact equality must hold
             models = [m + (True,) for m in models] + [models[-1]]
         for m in models:
@@ -117,6 +127,28 @@ def inputs(ctx, h, which):
             p = ctx.path(tag + ".ndjson")
             core.write_ndjson(p, recs)
             out.append((tag, p))
+        # deep-narrow family: longer sequences over chain headers and three keys
+        for uniform in ([True, False] if ctx.prop == "C03" else [False]):
+            n = 5 if ctx.quick else 6
+            tag = "doc-narrow-n%d%s" % (n, "u" if uniform else "")
+            recs = gen_doc_cases(ctx, n, 3, 0, tag, uniform, narrow=1)
+            p = ctx.path(tag + ".ndjson")
+            core.write_ndjson(p, recs)
+            out.append((tag, p))
+        if ctx.prop in ("C09", "C01"):
+            tag = "doc-narrow2-n%d" % (5 if ctx.quick else 6)
+            recs = gen_doc_cases(ctx, 5 if ctx.quick else 6, 3, 0, tag, False, narrow=2)
+            p = ctx.path(tag + ".ndjson")
+            core.write_ndjson(p, recs)
+            out.append((tag, p))
+        # inline tables: the same rules in a closed world
+        for uniform in ([True, False] if ctx.prop == "C03" else [False]):
+            for (n, pth) in ([(2, 3), (3, 2)] if ctx.quick else [(3, 3), (4, 2)]):
+                tag = "doc-inline-n%dp%d%s" % (n, pth, "u" if uniform else "")
+                recs = gen_doc_cases(ctx, n, pth, 2, tag, uniform, inline=True)
+                p = ctx.path(tag + ".ndjson")
+                core.write_ndjson(p, recs)
+                out.append((tag, p))
     return out
 
 
